@@ -37,7 +37,31 @@ class UF:
         return call
 
 
+def _uf_identities(cls):
+    """sf / isf are expressed through cdf / ppf, so that equivalent SciPy calls give the same term"""
+    def sf(self, x, *a):
+        return 1 - self.cdf(x, *a)
+
+    def isf(self, q, *a):
+        return self.ppf(1 - q, *a)
+    cls.sf, cls.isf = sf, isf
+    return cls
+
+
 class NormErf(UF):
+    def pdf(self, x):
+        g = lambda v: alg.S(sp.exp(-alg.expr_of(v) ** 2 / 2) / sp.sqrt(2 * sp.pi))
+        a = np.asarray(x)
+        if a.shape == ():
+            return g(a.item() if isinstance(x, np.ndarray) else x)
+        return np.array([g(v) for v in a.reshape(-1)], dtype=object).reshape(a.shape).view(alg.SymArr)
+
+    def sf(self, x):
+        return 1 - self.cdf(x)
+
+    def isf(self, q):
+        return self.ppf(1 - q)
+
     def cdf(self, x):
         g = lambda v: alg.S((1 + sp.erf(alg.expr_of(v) / sp.sqrt(2))) / 2)
         a = np.asarray(x)
@@ -71,11 +95,29 @@ def conformance():
     def fake_brentq(f, a, b, args=(), **kw):
         calls.setdefault("brentq", []).append(dict(a=a, b=b, args=args, kw=kw, f=f))
         return alg.S(sp.Symbol("ROOT", positive=True))
-    shim = {"np": npx.NPX(), "norm": NormErf("norm"), "nct": UF("nct"), "chi2": UF("chi2"), "binom": UF("binom"), "brentq": fake_brentq}
-    with alg.Shimmed(st, reg, shim):
-        k1 = st.ksingle(alg.S(p), alg.S(c), alg.S(n))
-    want = _fn("nct_ppf")(c, n - 1, sp.sqrt(n) * _fn("norm_ppf")(p)) / sp.sqrt(n)
-    items.append(("ksingle::== nct.ppf(c, n-1, sqrt(n) norm.ppf(p)) / sqrt(n)", alg.expr_of(k1) - want))
+    nrm = NormErf("norm")
+    UFI = _uf_identities(type("UFI", (UF,), {}))
+    _el = lambda f: (lambda x: (lambda a: f(a.item() if isinstance(x, np.ndarray) else x) if a.shape == () else
+                                np.array([f(v) for v in a.reshape(-1)], dtype=object).reshape(a.shape).view(alg.SymArr))(np.asarray(x)))
+    shim = {"np": npx.NPX(), "norm": nrm, "nct": UFI("nct"), "chi2": UFI("chi2"), "binom": UFI("binom"), "brentq": fake_brentq,
+            # scipy.special spellings of the same functions (a module that imports them gets the same terms)
+            "ndtr": nrm.cdf, "ndtri": nrm.ppf, "erf": _el(lambda v: alg.S(sp.erf(alg.expr_of(v)))), "erfc": _el(lambda v: alg.S(1 - sp.erf(alg.expr_of(v))))}
+    shim = {k_: v_ for k_, v_ in shim.items() if k_ in ("np", "norm", "nct", "chi2", "binom", "brentq") or k_ in st.__dict__}
+    names = {"k1": "ksingle::== nct.ppf(c, n-1, sqrt(n) norm.ppf(p)) / sqrt(n)"}
+
+    def guarded(name, thunk):
+        try:
+            items.append((name, thunk()))
+        except Exception as ex:
+            tb = traceback.extract_tb(ex.__traceback__)
+            items.append((name, RuntimeError("symbolic run stopped (tool limit): %r at %s:%s" % (ex, os.path.basename(tb[-1].filename), tb[-1].lineno))))
+
+    def _k1():
+        with alg.Shimmed(st, reg, shim):
+            k1 = st.ksingle(alg.S(p), alg.S(c), alg.S(n))
+        want = _fn("nct_ppf")(c, n - 1, sp.sqrt(n) * _fn("norm_ppf")(p)) / sp.sqrt(n)
+        return alg.expr_of(k1) - want
+    guarded(names["k1"], _k1)
     # one Newton iteration of _getr
     for wit in ({p: sp.Rational(1, 2), n: 2}, {p: sp.Rational(19, 20), n: 10}, {p: sp.Rational(3, 4), n: 3}):
         reg = alg.HashRegime("getr")
@@ -86,28 +128,37 @@ def conformance():
         class NormStart(NormErf):
             def ppf(self, q):
                 return alg.S(r0 / (1 + 1 / (2 * n)))        # so that the initial guess is the free symbol R0
-        shim2 = dict(shim, norm=NormStart("norm"))
-        with alg.Shimmed(st, reg, shim2):
-            with warnings.catch_warnings():
-                warnings.simplefilter("ignore")
-                r1 = st._getr(alg.S(n), alg.S(p), 5)       # tol = 5: |r - rold| starts at 10 > 5, one iteration, then the step is < 5 at the witness
-        rr = sp.Symbol("rr", positive=True)
-        Phi = lambda x: (1 + sp.erf(x / sp.sqrt(2))) / 2
-        g = Phi(1 / sp.sqrt(n) + rr) - Phi(1 / sp.sqrt(n) - rr) - p       # documented coverage residual
-        newton = (rr - g / sp.diff(g, rr)).subs(rr, r0)
-        e1 = sp.simplify(alg.expr_of(r1) - newton)
-        items.append(("_getr::one iteration from R0 is the exact Newton step R0 - g(R0)/g'(R0), g(r) = Phi(1/sqrt n + r) - Phi(1/sqrt n - r) - p [witness p=%s, n=%s]" % (wit[p], wit[n]), e1))
+        ns = NormStart("norm")
+        shim2 = dict(shim, norm=ns)
+        if "ndtri" in shim2:
+            shim2["ndtri"] = ns.ppf
+
+        def _g(reg=reg, shim2=shim2, r0=r0):
+            with alg.Shimmed(st, reg, shim2):
+                with warnings.catch_warnings():
+                    warnings.simplefilter("ignore")
+                    r1 = st._getr(alg.S(n), alg.S(p), 5)       # tol = 5: |r - rold| starts at 10 > 5, one iteration, then the step is < 5 at the witness
+            rr = sp.Symbol("rr", positive=True)
+            Phi = lambda x: (1 + sp.erf(x / sp.sqrt(2))) / 2
+            g = Phi(1 / sp.sqrt(n) + rr) - Phi(1 / sp.sqrt(n) - rr) - p       # documented coverage residual
+            newton = (rr - g / sp.diff(g, rr)).subs(rr, r0)
+            return sp.simplify(alg.expr_of(r1) - newton)
+        guarded("_getr::one iteration from R0 is the exact Newton step R0 - g(R0)/g'(R0), g(r) = Phi(1/sqrt n + r) - Phi(1/sqrt n - r) - p [witness p=%s, n=%s]" % (wit[p], wit[n]), _g)
     reg = alg.HashRegime("kdouble")
     reg.witness.update({p: sp.Rational(1, 2), c: sp.Rational(9, 10), n: 4})
     Rsym = sp.Symbol("Rsol", positive=True)
-    with alg.Shimmed(st, reg, dict(shim, _getr=lambda nn, pp, tol: alg.S(Rsym))):
-        k2 = st.kdouble(alg.S(p), alg.S(c), alg.S(n))
-    items.append(("kdouble::== sqrt((n-1)/chi2.ppf(1-c, n-1)) * r  with r the root of the coverage equation (_getr under contract)",
-                  alg.expr_of(k2) - sp.sqrt((n - 1) / _fn("chi2_ppf")(1 - c, n - 1)) * Rsym))
+    def _k2(reg=reg):
+        with alg.Shimmed(st, reg, dict(shim, _getr=lambda nn, pp, *a_, **k_: alg.S(Rsym))):
+            k2 = st.kdouble(alg.S(p), alg.S(c), alg.S(n))
+        return alg.expr_of(k2) - sp.sqrt((n - 1) / _fn("chi2_ppf")(1 - c, n - 1)) * Rsym
+    guarded("kdouble::== sqrt((n-1)/chi2.ppf(1-c, n-1)) * r  with r the root of the coverage equation (_getr under contract)", _k2)
     reg = alg.HashRegime("order")
-    with alg.Shimmed(st, reg, shim):
-        oc = st.order_stats("c", p=alg.S(p), n=alg.S(n), r=alg.S(r))
-    items.append(("order_stats('c')::== binom.sf(r-1, n, 1-p)  (P[at least r of n exceed... ] binomial tail)", alg.expr_of(oc) - _fn("binom_sf")(r - 1, n, 1 - p)))
+
+    def _oc(reg=reg):
+        with alg.Shimmed(st, reg, shim):
+            oc = st.order_stats("c", p=alg.S(p), n=alg.S(n), r=alg.S(r))
+        return alg.expr_of(oc) - (1 - _fn("binom_cdf")(r - 1, n, 1 - p))
+    guarded("order_stats('c')::== binom.sf(r-1, n, 1-p)  (P[at least r of n exceed... ] binomial tail)", _oc)
     # 'n': the function handed to brentq is (1-c) - (1 - betainc(r, n-r+1, 1-p)); the result is rounded up
     with alg.Shimmed(st, alg.HashRegime("order-n"), dict(shim, betainc=_betainc)):
         calls.clear()
@@ -129,6 +180,37 @@ def conformance():
     items.append(("order_stats('n')::root of (1-c) - (1 - betainc(r, n-r+1, 1-p)) by brentq with a tolerance <= 1e-9 (so that ceil() is the smallest integer except within 1e-9 of a tie)",
                   sp.Integer(0 if ok else 1)))
     return items, detail
+
+
+def term_replay(e):
+    """evaluate a term over the uninterpreted SciPy functions with the real ones on a grid; -> (failing point or None, points evaluated)"""
+    import scipy.stats as ss, scipy.special as sc
+    from sympy.core.function import AppliedUndef
+    table = {}
+    for f in e.atoms(AppliedUndef):
+        nm = f.func.__name__
+        if nm == "betainc":
+            table[nm] = sc.betainc
+        elif "_" in nm and hasattr(ss, nm.split("_")[0]):
+            table[nm] = getattr(getattr(ss, nm.split("_")[0]), nm.split("_", 1)[1])
+        else:
+            return dict(what="unknown function %s in the term" % nm), 0
+    syms = sorted(e.free_symbols, key=str)
+    grid = dict(p=(0.3, 0.5, 0.9, 0.99), c=(0.1, 0.5, 0.9, 0.95), n=(2, 5, 30), r=(1, 2), Rsol=(0.7, 2.5), ROOT=(10.0,), R0=(1.1,), nn=(7.0,))
+    import itertools
+    f = sp.lambdify(syms, e, modules=[table, "scipy", "numpy"])
+    npts = 0
+    for vals in itertools.product(*[grid.get(str(s_), (1.5,)) for s_ in syms]):
+        with warnings.catch_warnings():
+            warnings.simplefilter("ignore")
+            try:
+                d = complex(f(*vals))
+            except Exception as ex:
+                return dict(what="replay raised %r" % ex, point=dict(zip(map(str, syms), vals))), npts
+        npts += 1
+        if not (abs(d) <= 1e-9):
+            return dict(point={str(k_): float(v_) for k_, v_ in zip(syms, vals)}, difference=abs(d)), npts
+    return None, npts
 
 
 def bounded(seed, quick):
@@ -273,16 +355,30 @@ def run(tier, seed):
             run.add_function(ST, nd.name, hashlib.sha256(ast.unparse(nd).encode()).hexdigest()[:16], {"note": "real function executed with uninterpreted distribution functions"})
     try:
         items, detail = conformance()
+        for n_, e in items:
+            if isinstance(e, Exception):
+                run.undecided.append("%s: %s" % (n_, e))
+        items = [(n_, e) for n_, e in items if not isinstance(e, Exception)]
         vs = report.discharge_alg([(n_, e, ST, "post") for n_, e in items], budget=150)
         from sympy.core.function import AppliedUndef
         exprs = dict(items)
+        keep = []
         for v in vs:
             e = exprs.get(v.name)
             if v.status == "undecided" and e is not None and sp.sympify(e).atoms(AppliedUndef) and sp.simplify(e) != 0:
-                # a definition-conformance obligation is an equality of TERMS over the uninterpreted SciPy functions: different terms = not the documented definition
-                v.status = "failed"
-                v.detail = dict(v.detail, note="the returned term differs from the documented definition", difference=str(sp.simplify(e))[:300])
-        run.add_verdicts(vs)
+                # a definition-conformance obligation is an equality of TERMS over the uninterpreted SciPy functions.  Different terms may still be equal
+                # functions (another spelling of the same quantile): replay both sides with the real SciPy functions on a grid of admissible arguments
+                bad, npts = term_replay(sp.simplify(e))
+                if bad is not None:
+                    v.status = "failed"
+                    v.detail = dict(v.detail, note="the returned term differs from the documented definition; replayed with the real SciPy functions", difference=str(sp.simplify(e))[:300],
+                                    failing_input=bad)
+                else:
+                    run.bounded.append(dict(name="term replay for '%s': the returned term is spelled differently from the documented one and the identity is outside the rewriter; both sides "
+                                                 "evaluated with the real SciPy functions" % v.name[:60], evaluations=npts, failures=0, label="bounded (never counted as proved)"))
+                    continue
+            keep.append(v)
+        run.add_verdicts(keep)
         run.notes.append({"order_stats('n') brentq call": detail})
     except Exception as ex:
         tb = traceback.extract_tb(ex.__traceback__)
